@@ -28,7 +28,7 @@ type TypeD struct {
 
 // Col is a trait column: trait name, type token, family token of the Lean model.
 // Type tokens: string (untyped string constant), Str<n> (local `type Str<n> string`), int (untyped
-// int), Sm<n> (local int8), int16, time.Duration (through a renamed import), uint8, uint64,
+// int), Sm<n> (local int8), int8, int16, time.Duration (through a renamed import), uint8, uint16, uint64,
 // Un<n> (local uint16), bool, rune (untyped rune constant; dynamic type int32, family s32).
 type Col struct {
 	Name string
@@ -46,7 +46,7 @@ func famOfTy(ty string) string {
 		return "nstr"
 	case ty == "int", ty == "time.Duration":
 		return "s64"
-	case strings.HasPrefix(ty, "Sm"):
+	case strings.HasPrefix(ty, "Sm"), ty == "int8":
 		return "s8"
 	case ty == "int16":
 		return "s16"
@@ -58,7 +58,7 @@ func famOfTy(ty string) string {
 		return "u8"
 	case ty == "uint64":
 		return "u64"
-	case strings.HasPrefix(ty, "Un"):
+	case strings.HasPrefix(ty, "Un"), ty == "uint16":
 		return "u16"
 	}
 	return "none"
